@@ -78,6 +78,7 @@ type Ctx struct {
 	covers   []*Cover
 	trusted  map[string]bool // trusted/assumed contracts used
 	depth    int
+	pfSigs   map[string]string
 }
 
 type Cover struct {
